@@ -45,7 +45,8 @@ def inventory(prog) -> list[dict]:
             parts = name.split(".")
             if what in ("TABLE", "VIEW") and parts[-1].startswith("_fs_"):
                 rows.append({"catalog": USERDB, "schema": parts[0] if len(parts) > 1 else "main", "name": parts[-1],
-                             "type": "BASE TABLE" if what == "TABLE" else "VIEW", "kind": "table"})
+                             "type": "BASE TABLE" if what == "TABLE" else "VIEW", "kind": "table",
+                             "constraint": "PRIMARY KEY" if what == "TABLE" else None})
         break
     # instance-level objects
     m = prog.mod("instance")
@@ -97,7 +98,7 @@ class Hole:
 COLMAP = {
     "tables": {"TABLE_CATALOG": "catalog", "TABLE_SCHEMA": "schema", "TABLE_NAME": "name", "TABLE_TYPE": "type"},
     "schemata": {"CATALOG_NAME": "catalog", "SCHEMA_NAME": "schema"},
-    "duckdb_constraints": {"DATABASE_NAME": "catalog", "SCHEMA_NAME": "schema", "TABLE_NAME": "name"},
+    "duckdb_constraints": {"DATABASE_NAME": "catalog", "SCHEMA_NAME": "schema", "TABLE_NAME": "name", "CONSTRAINT_TYPE": "constraint"},
     "duckdb_views": {"DATABASE_NAME": "catalog", "SCHEMA_NAME": "schema", "VIEW_NAME": "name"},
 }
 
@@ -261,7 +262,7 @@ def rule_hidden(ctx):
         for row in inv:
             if (row["kind"] == "schema") != (rel == "schemata"):
                 continue
-            if rel in ("duckdb_constraints",) and (row["type"] != "BASE TABLE"):
+            if rel in ("duckdb_constraints",) and (row["type"] != "BASE TABLE" or not row.get("constraint")):
                 continue
             if rel == "duckdb_views" and row["type"] != "VIEW":
                 continue
@@ -493,6 +494,9 @@ def rule_no_phantom_comment(ctx):
     prog = ctx.prog
     for tr in traces(prog, "CREATE TABLE props no comment"):
         if tr.path.outcome != "return":
+            ctx.ob("C09.f", "CREATE TABLE with properties but no COMMENT succeeds", False, "fakesnow/cursor.py", repr(tr.path.value))
+            ctx.violation("C09.f", "cursor", "FakeSnowflakeCursor._execute", "CREATE TABLE with properties but no comment raises", "fakesnow/cursor.py",
+                          f"a CREATE TABLE with properties other than COMMENT raises {tr.path.value.cls} in the comment bookkeeping (the comment is None)")
             continue
         bad = [s for s in tr.engine_sql if "_fs_tables_ext" in text_of(s)]
         ctx.ob("C09.f", "CREATE TABLE with properties but no COMMENT writes no comment row", not bad, "fakesnow/transforms.py")
